@@ -87,6 +87,10 @@ theorem localWFB_iff (d : ArrayData) : localWFB d = true ↔ LocalWF d := by
     simp only [Bool.and_eq_true, list_isEmpty_iff]
     apply and_congr Iff.rfl
     rcases hb : d.buffers with _ | ⟨b, _ | ⟨b2, r⟩⟩ <;> simp
+  | view utf8 =>
+    simp only [Bool.and_eq_true, list_isEmpty_iff]
+    apply and_congr Iff.rfl
+    rcases hb : d.buffers with _ | ⟨v, ds⟩ <;> simp [allBelow_iff]
   | binary large =>
     simp only [Bool.and_eq_true, list_isEmpty_iff]
     apply and_congr Iff.rfl
